@@ -298,7 +298,7 @@ def replay(ctx, obj):
         return
     if c["kind"] == "tiny":
         fn, mk = _tiny_calls()[c["fn"]]
-        out, val, _ = monitor.call(fn, mk(_tiny_world(c["n"], c["dtype"])), {}, budget=400000, wall=40)
+        out, val, _ = monitor.call(fn, mk(_tiny_world(c["n"], c["dtype"], c.get("shape", "decay"))), {}, budget=400000, wall=40)
         if out != "returned" and _is_link_error(out, val):
             ctx.violation("unlinked-at-runtime", c, {"outcome": out, "error": str(val)[:200]})
         return
@@ -342,13 +342,17 @@ def _tiny_calls():
     return C
 
 
-def _tiny_world(n, dtype):
-    y = np.array([20.0, 6.0, 2.0, 1.0, 0.5][:n])
+TINY_SHAPES = {"decay": [20.0, 6.0, 2.0, 1.0, 0.5, 0.25], "nearline": [5.0, 3.0, 2.0, 1.0, 0.0, 0.0], "line": [10.0, 8.0, 6.0, 4.0, 2.0, 0.0],
+               "flat": [3.0] * 6, "rise": [0.0, 1.0, 3.0, 7.0, 8.0, 8.5], "bump": [4.0, 9.0, 2.0, 6.0, 1.0, 0.0]}
+
+
+def _tiny_world(n, dtype, shape="decay"):
+    y = np.array(TINY_SHAPES[shape][:n])
     x = np.arange(1, n + 1, dtype=float)
     P = np.column_stack([x, y])
-    Z = np.column_stack([x, y / 21.0])
+    Z = np.column_stack([x, y / (y.max() + 1.0)])
     if dtype == "int64":
-        P = np.column_stack([x, np.array([20, 6, 2, 1, 0][:n])]).astype(np.int64)
+        P = np.column_stack([x, np.floor(y)]).astype(np.int64)
     return {"P": P, "Z": Z}
 
 
@@ -362,12 +366,12 @@ def _tiny_sweep(ctx):
     n_calls = 0
     for name in sorted(C):
         fn, mk = C[name]
-        for n in (2, 3, 4, 5):
-            for dt in ("float64", "int64"):
-                W = _tiny_world(n, dt)
+        for n, dt, shape in [(n, dt, sh) for n in (2, 3, 4, 5, 6) for dt in ("float64", "int64") for sh in sorted(TINY_SHAPES)]:
+            if True:
+                W = _tiny_world(n, dt, shape)
                 out, val, _ = monitor.call(fn, mk(W), {}, budget=400000, wall=40)
                 n_calls += 1
                 if out != "returned" and _is_link_error(out, val):
-                    ctx.violation("unlinked-at-runtime", {"kind": "tiny", "fn": name, "n": n, "dtype": dt},
+                    ctx.violation("unlinked-at-runtime", {"kind": "tiny", "fn": name, "n": n, "dtype": dt, "shape": shape},
                                   {"outcome": out, "error": str(val)[:200]}, match="unlinked-at-runtime:%s" % name.split("[")[0])
     ctx.extra["tiny_input_calls"] = n_calls
